@@ -149,9 +149,94 @@ def explore_stream(acc, framing, side, names):
                         expected_deliveries=len(E)))
 
 
+def long_frames(framing, side, k):
+    """k maximum-size frames with distinct contents (PDU of 252 bytes, free of delimiter bytes)"""
+    out = []
+    for i in range(k):
+        if side == 'req':
+            m = dict(kind='req', fc=0x10, address=0x0100 + i, count=123, byte_count=246,
+                     registers=[0x0200 + 0x100 * i + (j % 100) for j in range(123)])
+        else:
+            m = dict(kind='rsp', fc=3, byte_count=250, registers=[0x0200 + 0x100 * i + (j % 100) for j in range(125)])
+        out.append(adu.build(framing, UNIT, pdu.encode(m), tid=i + 1))
+    return out
+
+
+def cut_menu(framing, bounds, dense):
+    n = bounds[-1]
+    if dense:
+        return list(range(1, n))
+    pts = set()
+    for b in bounds:
+        for d in range(-9, 10):
+            pts.add(b + d)
+    pts.update(range(1, n, 16))
+    pts.update((253, 254, 255, 256, 259, 260, 261, 262, 263, 264, 512, 513, 519, 520, 521))
+    return sorted(x for x in pts if 0 < x < n)
+
+
+def explore_long(acc, framing, side, k, max_cuts, dense):
+    """Streams of maximum-size frames (longer than any single frame, so that anything the receiver does 'because the
+    buffer is too long' shows): every chunking with at most max_cuts cuts, cut positions from cut_menu (every position
+    when dense).  Deviation-bounded: 0 cuts, then 1, then 2."""
+    frames = long_frames(framing, side, k)
+    S = b''.join(frames)
+    n = len(S)
+    bounds = [0]
+    for f in frames:
+        bounds.append(bounds[-1] + len(f))
+    names = ['max%s#%d' % (side, k)]
+    cfg = '%s/%s/%s' % (framing, side, names[0])
+    E, why = baseline(framing, side, frames)
+    if E is None:
+        acc.inc('streams_excluded')
+        acc.add('excluded', cfg + ': ' + why)
+        return
+    acc.inc('streams')
+    menu = cut_menu(framing, bounds, dense)
+
+    def rec(fr_snap, pos, delivered, cuts, chunks):
+        # close the execution: deliver the rest in one read
+        fr = framers.restore(framing, side, fr_snap)
+        got, exc = framers.feed(fr, S[pos:], [UNIT], False)
+        acc.inc('transitions'); acc.inc('evaluations'); acc.inc('traces_validated_against_impl')
+        final = delivered + tuple(got)
+        ch = chunks + [n - pos]
+        if exc is not None or final != E:
+            kind = ('exception:' + type(exc).__name__) if exc is not None else ('lost' if _subseq(final, E) else 'wrong-delivery')
+            sig = 'C06/%s/%s/%s/%s' % (framing, side, kind, cut_classes(framing, bounds, ch))
+            acc.violation(sig, dict(framing=framing, side=side, stream=names, chunks=ch, long=k),
+                          '%d of %d messages delivered from %d maximum-size frames cut as %s%s'
+                          % (len(final), len(E), k, ch, (' (%s escaped)' % type(exc).__name__) if exc else ''), cfg)
+        acc.add('terminal_outcomes', (cfg, len(final), final == E))
+        if cuts == max_cuts:
+            return
+        for c in menu:
+            if c <= pos:
+                continue
+            fr = framers.restore(framing, side, fr_snap)
+            got, exc = framers.feed(fr, S[pos:c], [UNIT], False)
+            acc.inc('transitions'); acc.inc('evaluations'); acc.inc('traces_validated_against_impl')
+            if exc is not None:
+                sig = 'C06/%s/%s/exception:%s/%s' % (framing, side, type(exc).__name__, cut_classes(framing, bounds, chunks + [c - pos]))
+                acc.violation(sig, dict(framing=framing, side=side, stream=names, chunks=chunks + [c - pos], long=k),
+                              '%s escaped on an incomplete frame' % type(exc).__name__, cfg)
+                continue
+            snap = framers.snapshot(fr)
+            acc.inc('states')
+            acc.add('nontrivial', (cfg, c, hash(snap) & 0xFFFFFFFF, len(delivered) + len(got)))
+            rec(snap, c, delivered + tuple(got), cuts + 1, chunks + [c - pos])
+
+    rec(framers.snapshot(framers.make(framing, side)), 0, (), 0, [])
+
+
 def shard(args):
     acc = Acc()
     framing, side, streams = args
+    if streams and streams[0] == 'LONG':
+        _, k, max_cuts, dense = streams
+        explore_long(acc, framing, side, k, max_cuts, dense)
+        return acc
     for names in streams:
         explore_stream(acc, framing, side, names)
     return acc
@@ -183,6 +268,13 @@ def run(tier, seed):
                 shards.append((framing, side, pairs[i:i + 7]))
             for i in range(0, len(triples), 3):
                 shards.append((framing, side, triples[i:i + 3]))
+        for side in ('req', 'rsp'):
+            if tier == 'thorough':
+                shards.append((framing, side, ('LONG', 2, 2, True)))
+                shards.append((framing, side, ('LONG', 3, 3, False)))
+            else:
+                shards.append((framing, side, ('LONG', 2, 2, False)))
+                shards.append((framing, side, ('LONG', 3, 1, True)))
     acc = par.run_shards(shard, shards)
     harness_error = None
     if acc.count('terminal_outcomes') < 2 or acc.n.get('streams', 0) < 10:
@@ -197,6 +289,9 @@ def run(tier, seed):
             excluded=sorted(acc.sets.get('excluded', ()))[:40],
             bounds='all chunkings (every cut set, empty reads included) of every listed stream; '
                    'streams: every single frame of every catalogued class, all ordered pairs over the 7-class mix'
+                   + '; streams of 2 and 3 maximum-size frames (252-byte PDUs): every chunking with <= 2 cuts over a menu of '
+                     'cut positions around every frame boundary, size limit and every 16th byte, and every single cut position'
+                   + ('; thorough: maximum-size streams with every pair of cut positions (2 frames) and every triple from the menu (3 frames)' if tier == 'thorough' else '')
                    + ('; thorough: all ordered pairs over ALL catalogued classes, all triples over the 7-class mix, all 4-frame streams over a 3-class mix' if tier == 'thorough' else ''),
         ),
         assumptions=['expected deliveries are those of the same framer fed one frame per call (differential oracle)',
@@ -207,14 +302,14 @@ def run(tier, seed):
 
 def replay(w):
     framing, side, names = w['framing'], w['side'], w['stream']
-    frames = frames_for(framing, names)
+    frames = long_frames(framing, side, w['long']) if w.get('long') else frames_for(framing, names)
     S = b''.join(frames)
     E, why = baseline(framing, side, frames)
     fr = framers.make(framing, side)
     pos, got_all, lines, bad = 0, [], [], False
     for L in w['chunks']:
         got, exc = framers.feed(fr, S[pos:pos + L], [UNIT], False)
-        lines.append('feed %-3d bytes %s -> %d msgs%s' % (L, S[pos:pos + L].hex(), len(got),
+        lines.append('feed %-3d bytes %s -> %d msgs%s' % (L, S[pos:pos + L].hex()[:120], len(got),
                                                           ' EXC %r' % exc if exc else ''))
         pos += L
         got_all.extend(got)
